@@ -4,6 +4,11 @@ manifest is always valid)."""
 import json, sys
 
 CHECKS = {
+ "C08": dict(
+   text="Race freedom by guarded-by discipline and commit/publication order, decided statically for every call path from the exported cache API: plain maps and rewritable fields only under their owner's mutex in the required mode (interprocedural must-lockset), sync/atomic counters never accessed plainly, constructor-only fields never rewritten; every commit-path write into the shared LRU maps under the state cache's lock; the block's ancestor link published after all of the block's keys.",
+   note="Does not decide that every interleaving of the deliberately lock-free StateCache.Get with a commit returns the block-tree value (needs exploring interleavings). Locks are identified per (owner type, field), not per instance. Trusted: go/ssa, CHA call graph; the LRU library is internally synchronised.",
+   technique="interprocedural must-lockset analysis over go/ssa + repo call graph, guard table per field, CFG reachability for publication order",
+   ref="DESIGN.md section 5 C08"),
  "C06": dict(
    text="Structural necessary conditions of correct cache answers, decided on every feasible CFG path: an existing per-key versions map is never replaced when (re)installing it; a handed-out entry is reached only with its tombstone tested false; each layer consults its own map before delegating (block layer continues at the previous block); the ancestor walk only follows the queried hash and stored links, memoises the found entry under the queried hash; entries are stored under the key/hash given and remove arms store deleted=true.",
    note="Does not decide answers after LRU eviction nor equality with the block-tree oracle for every history (value-level). Trusted: go/ssa model; structural equality of tested atoms; third-party LRU as a named API.",
